@@ -18,7 +18,11 @@ RULE = ("Pure Prolog programs without probabilities or cut, generated as ASTs by
         "in the body / a partial term, queried 7 times. (b) 'datalog': definite Datalog with arbitrary recursion; "
         "oracle: semi-naive least Herbrand model restricted to the query. Non-trivial: the query (or wrapper list) "
         "has >= 2 solutions and a called predicate has clauses whose head arguments differ in groundness at some "
-        "position. Distinct = distinct (program, query sequence).")
+        "position. Distinct = distinct (program, query sequence). Failure signatures separate order-only, "
+        "multiplicity-only and content differences; the suffixes '|node-order' / '|leafless' mark cases in which the "
+        "reference run shows that a findall solution does not end in a proof leaf of its own / that a repeated answer "
+        "has a proof without leaves (classes of the known findings on findall's reconstruction of the list from proof "
+        "nodes).")
 ASSUMPTIONS = ["no SWI-Prolog in the sandbox: pbt/ref/c13_prolog.py (SLD interpreter and bottom-up evaluator, "
                "cross-checked against each other on the non-recursive Datalog cases) is the oracle",
                "answers of engine.query are compared as sets because tabling removes duplicate answers; only findall "
@@ -226,33 +230,42 @@ def _is_wrapper(prog, pred):
     return False
 
 
-def _compare(prog, q, expected, got, dup, qi, first_seen):
-    """expected: list of canonical answers in SLD order with duplicates; got: list of canonical answers."""
+def _compare(prog, q, expected, got, flags, qi):
+    """expected: list of canonical answers in SLD order with duplicates; got: list of canonical answers.
+    flags = (fragile, leafless): class flags of the reference evaluation of this query; they only refine the failure
+    signature ('|node-order' on order failures, '|leafless' on multiplicity failures)."""
+    fragile, leafless = flags
     head = "query #%d %s" % (qi, ref.render_atom(q))
-    if _is_wrapper(prog, q[0]):
+    wrapper = _is_wrapper(prog, q[0])
+    if wrapper:
         exp_list = ref.list_items(expected[0][0]) if len(expected) == 1 else None
         if len(got) != 1 or ref.list_items(got[0][0]) is None or exp_list is None:
             return Failure("findall-answers", "%s: expected %s got %s" % (head, _show_answers(expected),
                                                                          _show_answers(got)))
-        got_list = ref.list_items(got[0][0])
-        if got_list == exp_list:
+        if got[0][0] == expected[0][0]:
             return None
-        suffix = "|node-order" if dup else ""
         detail = "%s: SLD list %s, ProbLog list %s" % (head, ref.show(expected[0][0]), ref.show(got[0][0]))
-        if sorted(map(repr, got_list)) == sorted(map(repr, exp_list)):
-            return Failure("findall-order", detail, sig="findall-order" + suffix)
-        if set(got_list) == set(exp_list):
-            return Failure("findall-duplicates", detail, sig="findall-duplicates" + suffix)
-        return Failure("findall-content", detail, sig="findall-content" + suffix)
-    es, gs = set(expected), set(got)
-    if es == gs:
-        return None
-    miss = sorted(es - gs, key=repr)
-    extra = sorted(gs - es, key=repr)
-    kind = "answer-missing" if miss and not extra else "answer-extra" if extra and not miss else "answer-set"
-    return Failure(kind, "%s: reference answers %s, ProbLog answers %s (missing %s, extra %s)" % (
-        head, _show_answers(sorted(es, key=repr)), _show_answers(sorted(gs, key=repr)), _show_answers(miss),
-        _show_answers(extra)), sig=kind + ("|node-order" if dup else ""))
+        prefix = "findall"
+        es, gs = set(expected), set(got)
+    else:
+        es, gs = set(expected), set(got)
+        if es == gs:
+            return None
+        miss = sorted(es - gs, key=repr)
+        extra = sorted(gs - es, key=repr)
+        detail = "%s: reference answers %s, ProbLog answers %s (missing %s, extra %s)" % (
+            head, _show_answers(sorted(es, key=repr)), _show_answers(sorted(gs, key=repr)), _show_answers(miss),
+            _show_answers(extra))
+        prefix = "answer"
+    # which aspect differs: only the order inside (findall) lists, only multiplicities inside lists, or the content
+    if set(tuple(ref.sort_lists(t) for t in a) for a in es) == set(tuple(ref.sort_lists(t) for t in a) for a in gs):
+        kind = prefix + "-order"
+        return Failure(kind, detail, sig=kind + ("|node-order" if fragile else ""))
+    if set(tuple(ref.dedup_lists(t) for t in a) for a in es) == set(tuple(ref.dedup_lists(t) for t in a) for a in gs):
+        kind = prefix + "-duplicates"
+        return Failure(kind, detail, sig=kind + ("|leafless" if leafless else ""))
+    kind = prefix + ("-content" if wrapper else "-set")
+    return Failure(kind, detail)
 
 
 def _called_preds(prog, q):
@@ -304,20 +317,22 @@ def check_sld(case):
             if it.floundered:
                 return Outcome(inconclusive="flounder", features=sorted(feats))
             fragile = any(not ref.order_robust(proofs, uses) for _k, proofs, uses in it.findall_log)
-            refs.append(([ref.canonical(a) for a in ans], fragile))
+            leafless = any(not ref.multiplicity_robust(uses) for _k, _p, uses in it.findall_log)
+            refs.append(([ref.canonical(a) for a in ans], (fragile, leafless)))
             any_dup = any_dup or it.dup_call
             any_fragile = any_fragile or fragile
     except ref.Budget:
         return Outcome(inconclusive="ref-budget", features=sorted(feats))
     # self check of the two references on the pure Datalog part of the space
-    if _datalog_only(prog):
+    core = [s for s in prog if not _is_wrapper(prog, s[1][0])]
+    if _datalog_only(core):
         try:
-            model = ref.least_model(prog)
+            model = ref.least_model(core)
         except (ref.Unsupported, ref.Budget):
             model = None
         if model is not None:
             for q, (ans, _d) in zip(queries, refs):
-                if all(ref.is_ground(t) for a in ans for t in a):
+                if not _is_wrapper(prog, q[0]) and all(t[0] in ("a", "i", "v") for t in q[1]):
                     m = set(ref.canonical(a) for a in ref.model_answers(model, q[0], q[1]))
                     if m != set(ans):
                         raise AssertionError("reference evaluators disagree on %s: SLD %r bottom-up %r\n%s" % (
@@ -339,7 +354,7 @@ def check_sld(case):
             return Outcome(inconclusive=res, features=sorted(feats))
         return Outcome(failure=failure, features=sorted(feats), sample={"program": src})
     seen = {}
-    for qi, (q, (expected, dup)) in enumerate(zip(queries, refs)):
+    for qi, (q, (expected, flags)) in enumerate(zip(queries, refs)):
         key = ref.render_atom(q)
         try:
             got = _query(eng, db, q)
@@ -352,7 +367,7 @@ def check_sld(case):
             if failure is None:
                 return Outcome(inconclusive=res, features=sorted(feats))
             break
-        failure = _compare(prog, q, expected, got, dup, qi, key not in seen)
+        failure = _compare(prog, q, expected, got, flags, qi)
         if failure is not None:
             if seen.get(key) is True:
                 failure.detail += " [the same query was answered correctly earlier on this database]"
@@ -421,7 +436,7 @@ def check_datalog(case):
                 return Outcome(inconclusive=res, features=sorted(feats))
             failure.detail += "\nprogram:\n" + src
             break
-        failure = _compare(prog, q, expected, got, False, qi, True)
+        failure = _compare(prog, q, expected, got, (False, False), qi)
         if failure is not None:
             failure.kind = "model-" + failure.kind
             failure.sig = "model-" + failure.sig
@@ -448,26 +463,38 @@ def render(case):
     return {"program": ref.render_program(case["prog"]), "queries": [ref.render_atom(q) for q in case["queries"]]}
 
 
-def findall_node_order(case, failure=None):
-    """Class of the finding 'findall/3 orders its solutions by the largest node id of their proofs': the reference
-    evaluation of some query of the case runs a findall whose solutions do NOT all end in a proof leaf of their own
-    (see ref.order_robust), so the node order can differ from the SLD order."""
+def _findall_class(case, pred):
     prog = case["prog"]
     try:
         for q in case["queries"]:
             it = ref.Interp(prog, budget=30000, max_depth=120)
             it.track_proofs = True
             it.query(q[0], q[1])
-            if any(not ref.order_robust(proofs, uses) for _k, proofs, uses in it.findall_log):
+            if any(pred(proofs, uses) for _k, proofs, uses in it.findall_log):
                 return True
     except ref.Budget:
         return False
     return False
 
 
+def findall_node_order(case, failure=None):
+    """Class of the finding 'findall/3 orders its solutions by the largest node id of their proofs': the reference
+    evaluation of some query of the case runs a findall whose solutions do NOT all end in a proof leaf of their own
+    (see ref.order_robust), so the node order can differ from the SLD order."""
+    return _findall_class(case, lambda proofs, uses: not ref.order_robust(proofs, uses))
+
+
+def findall_leafless_proof(case, failure=None):
+    """Class of the finding 'proofs without leaves collapse into one findall element': in the reference evaluation of
+    some query a call, disjunction or findall goal returns the same answer twice and one of those proofs consists of
+    negations / nested findalls only (see ref.multiplicity_robust)."""
+    return _findall_class(case, lambda proofs, uses: not ref.multiplicity_robust(uses))
+
+
 KNOWN_CLASSES = {
     "shared_var_call": lambda case, failure: shared_var_call(case),
     "findall_node_order": findall_node_order,
+    "findall_leafless_proof": findall_leafless_proof,
 }
 
 SUBCHECKS = [
